@@ -1,0 +1,32 @@
+//go:build verif
+
+// Hand-written contracts of resharing round 1 (the rest is generated: zz_contracts_proto_verif.go).
+
+package resharing
+
+//@ func (*DGRound1Message).UnmarshalEDDSAPub
+//@   props C06 C17 C04
+//@   requires m != nil && !isnil(ec)
+//@   ensures [C17.announced-key-is-on-the-curve] result1 == nil ==> (result0 != nil && fresh(result0) && wfPoint(result0) && result0.curve == ec && oncurve(ec, px(result0), py(result0)) && px(result0) == beint(bytes(m.EddsaPubX)) && py(result0) == beint(bytes(m.EddsaPubY)))
+//@   ensures result1 != nil ==> result0 == nil
+
+// round 1: a new-committee member marks oldOK[j] when old member j's DGRound1Message
+// is there; the public key announced by old member 0 must agree with the one kept.
+//@ define rs1slotEd(m) = (!isnil(m) && acc_eddsa_resharing_round1(m))
+//@ func (*round1).Update
+//@   props C08 C04 C06
+//@   requires round != nil && round.base != nil && round.temp != nil && round.save != nil && rsWF(round.ReSharingParameters)
+//@   requires [one-slot-per-committee-member] len(round.temp.dgRound1Messages) == len(round.oldOK)
+//@   requires [stored-key-wellformed] round.save.EDDSAPub != nil ==> wfPoint(round.save.EDDSAPub)
+//@   requires [store-files-round1-messages-by-type] forall k in 0..len(round.temp.dgRound1Messages) :: (!isnil(round.temp.dgRound1Messages[k]) ==> (msgfrom(round.temp.dgRound1Messages[k]) != nil && istype(msgcontent(round.temp.dgRound1Messages[k]), "*eddsa/resharing.DGRound1Message") && cast(msgcontent(round.temp.dgRound1Messages[k]), "*eddsa/resharing.DGRound1Message") != nil))
+//@   modifies round.oldOK[*], round.save.EDDSAPub
+//@   ensures [C08.not-a-receiver-in-this-round] !rsNew(round.ReSharingParameters) ==> (result0 && result1 == nil && (forall j in 0..len(round.oldOK) :: round.oldOK[j] == old(round.oldOK[j])))
+//@   ensures [C08.ok-marks-exactly-the-peers-whose-messages-are-delivered] (rsNew(round.ReSharingParameters) && result1 == nil) ==> (forall j in 0..len(round.oldOK) :: (round.oldOK[j] <==> (old(round.oldOK[j]) || rs1slotEd(round.temp.dgRound1Messages[j]))))
+//@   ensures [C08.update-true-only-if-nobody-awaited] (rsNew(round.ReSharingParameters) && result0) ==> (result1 == nil && (forall j in 0..len(round.oldOK) :: round.oldOK[j]))
+//@   ensures [C04.announced-key-never-replaced-by-a-different-one] (old(round.save.EDDSAPub) != nil && round.save.EDDSAPub != old(round.save.EDDSAPub)) ==> (round.save.EDDSAPub != nil && px(round.save.EDDSAPub) == old(px(round.save.EDDSAPub)) && py(round.save.EDDSAPub) == old(py(round.save.EDDSAPub)))
+//@   loop 0 invariant rsNew(round.ReSharingParameters)
+//@   loop 0 invariant forall k in 0..$iter :: (round.oldOK[k] <==> (old(round.oldOK[k]) || rs1slotEd(round.temp.dgRound1Messages[k])))
+//@   loop 0 invariant forall k in $iter..len(round.oldOK) :: (round.oldOK[k] == old(round.oldOK[k]))
+//@   loop 0 invariant ret ==> (forall k in 0..$iter :: round.oldOK[k])
+//@   loop 0 invariant round.save.EDDSAPub != nil ==> (wfPoint(round.save.EDDSAPub) && (old(round.save.EDDSAPub) != nil ==> (px(round.save.EDDSAPub) == old(px(round.save.EDDSAPub)) && py(round.save.EDDSAPub) == old(py(round.save.EDDSAPub)))))
+//@   loop 0 invariant old(round.save.EDDSAPub) != nil ==> round.save.EDDSAPub != nil
